@@ -334,4 +334,5 @@ func runC06(c *report.Ctx) {
 	ruleLayout(c, []string{"wallet-status-value", "synced-block-value", "synced-to-value"}, 5)
 	ruleNoMemoryTipUnderUpdate(c)
 	ruleFastForwardGate(c)
+	ruleReadySet(c, false, true)
 }
